@@ -31,13 +31,22 @@ structure Variant where
   fires for the exhaustive verifier, which is part of every path's verifiers once a global rule
   exists: after an unprotected path, the protected paths of the same commit are not checked. -/
   f63_trustExhaustive : Bool := true
+  /-- F64: the "already verified using this verifier" shortcut returns before the global rules are
+  evaluated: a global threshold rule matching a later path of a commit is not enforced when an
+  earlier path of the same commit was accepted by the same delegation rule. -/
+  f64_shortcutSkipsGlobals : Bool := true
+  /-- F65: whether the files changed by a commit are verified at all depends on the delegation rules
+  only (`hasFileRule`): a global rule that protects a file namespace is never evaluated when no
+  delegation rule has a `file:` pattern. -/
+  f65_globalFileRuleIgnored : Bool := true
   deriving Repr, DecidableEq, Inhabited
 
 def Variant.current : Variant := {}
 def Variant.good : Variant :=
   { f1_exhaustiveSatisfies := false, f2_propagationSkipped := false, f3_fixNotVerified := false,
     f4_inRangeNotSelfVerified := false, f7_ghPredicateNotValidated := false,
-    f27_mergeableNeedsThreshold2 := false, f63_trustExhaustive := false }
+    f27_mergeableNeedsThreshold2 := false, f63_trustExhaustive := false,
+    f64_shortcutSkipsGlobals := false, f65_globalFileRuleIgnored := false }
 
 inductive VE where
   | verif            -- ErrVerificationFailed / ErrVerifierConditionsUnmet
@@ -240,7 +249,8 @@ def verifyObject (W : World) (v : Variant) (P : Policy) (path : String) (g : Opt
   | none => .error .other
   | some vs =>
     if vs.isEmpty then .ok ("", false) else
-    if o.trusted != "" && vs.any (fun vn => vn.name == o.trusted && (v.f63_trustExhaustive || !vn.v.exhaustive)) then .ok (o.trusted, false) else
+    if o.trusted != "" && (v.f64_shortcutSkipsGlobals || P.root.globals.isEmpty) &&
+        vs.any (fun vn => vn.name == o.trusted && (v.f63_trustExhaustive || !vn.v.exhaustive)) then .ok (o.trusted, false) else
     match usingVerifiers v P vs g ap.auth ap.approvers o.mergeable with
     | .error e => .error e
     | .ok r =>
@@ -294,6 +304,13 @@ def verifyFiles (W : World) (v : Variant) (P : Policy) (ap : Approvals) : List N
     | .error e => .error e
     | .ok () => verifyFiles W v P ap cs
 
+/-- does verification look at the files changed by the commits of an entry?  `hasFileRule`
+(policy.go:1205-1246) only knows the delegation rules; repaired (F65): also when a global threshold
+rule protects a file namespace. -/
+def hasFileRuleV (v : Variant) (P : Policy) : Bool :=
+  P.hasFileRule || (!v.f65_globalFileRuleIgnored &&
+    P.root.globals.any (fun g => g.isThreshold && g.patterns.any (fun p => hasPrefix p "file:")))
+
 /-- `verifyEntry` (verify.go:853-911), branch references only (tags are not modelled). -/
 def verifyEntry (W : World) (v : Variant) (P : Policy) (A : Option AttState) (i : Nat) (e : LogEntry) :
     Except VE Unit :=
@@ -306,7 +323,7 @@ def verifyEntry (W : World) (v : Variant) (P : Policy) (A : Option AttState) (i 
     match W.verifyObject v P ("git:" ++ e.ref) (sigOf e.signer) (some i) ap {} with
     | .error _ => .error .verif
     | .ok _ =>
-      if !P.hasFileRule then .ok () else
+      if !hasFileRuleV v P then .ok () else
       W.verifyFiles v P ap (W.commitsBetween tc frm)
 
 /-! ### VerifyRelativeForRef -/
@@ -482,7 +499,7 @@ def verifyMergeableCommit (W : World) (v : Variant) (targetRef : String) (featur
   match W.verifyObject v P ("git:" ++ targetRef) none none ap { mergeable := true } with
   | .error _ => .error .verif
   | .ok (_, need) =>
-    if !P.hasFileRule then pure need else do
+    if !hasFileRuleV v P then pure need else do
       W.verifyFiles v P ap (W.commitsBetween feature frm)
       pure need
 
